@@ -1,2 +1,5 @@
+import Gaftools.Props.TieA5
 import Gaftools.Props.TieA
 #print axioms Gaftools.TieA.eDir_gen_eq_model
+#print axioms Gaftools.TieA.addEdge_gen
+#print axioms Gaftools.TieA.removeEdge_gen
